@@ -92,10 +92,10 @@ claim("C07", "DESIGN.md §5 C07",
 claim("C08", "DESIGN.md §5 C08, §11",
       "Lean 4 composition theorems: path-based solutions = partitions into pool routes (all routes => reference), arc-based on a complete grid = reference partitions (both directions, via the decoder and representability theorems), non-strict sequence <= reference, strict sequence >= reference, default-penalty QUBO minima = constrained optima (C04) + exhaustive optimisation of the four real models against an independent optimiser",
       "Proved on the model, cost-preservingly: path-based feasible vectors are exactly the partitions into pool routes, so with all valid routes enumerated the achievable costs are those of the reference problem — also end to end for the pool BUILT by offering routes to add_route on a fixed graph (Props/C08c: poolValid_offer, offer_routes_iff_valid, path_offer_all_eq_reference, path_offer_exhaustive_eq_reference: no pool hypothesis left); "
-      "arc-based on a complete grid (capacity not binding, depot window opening exactly at 0, no depot self-arc, positive customer-to-customer times): achievable costs = costs of reference partitions (the original statement without 'depot window opens at 0' is refuted in Lean); "
+      "arc-based on a complete grid (capacity not binding, no depot self-arc, positive customer-to-customer times; NO assumption on the depot window any more: the earlier Lean refutation of the statement without 'depot opens at 0' was defect D18 of the path-based route clock, repaired): achievable costs = costs of reference partitions; "
       "every reference partition with <= V routes of <= L stops is a non-strict walk assignment of equal cost; every strict walk assignment is a reference partition of equal cost. Equal / ordered optima and QUBO minima follow with C04. "
       "The four real models are optimised exhaustively on every run (constrained optima and default-penalty QUBO minima) and compared with a subset-DP optimiser over independently enumerated valid routes.",
-      "Small instances (<= 3 customers, n <= 18) for the exhaustive comparison; theorems are unbounded. 'Capacity not binding' is formalised as all demands zero (CapFree); the sequence theorems speak about the object's own graph (with its depot self-loop), the glue to one shared source graph is carried by the exhaustive comparison.")
+      "Small instances (<= 3 customers, n <= 18) for the exhaustive comparison; theorems are unbounded. Known finding (listed, not repaired): zero-time cycles between customers are subtours of the arc-based model. 'Capacity not binding' is formalised as all demands zero (CapFree); the sequence theorems speak about the object's own graph (with its depot self-loop), the glue to one shared source graph is carried by the exhaustive comparison.")
 
 claim("C09", "DESIGN.md §5 C09, §11",
       "Lean 4 soundness theorems for the operational models of all three construction heuristics (fold invariants -> walks / exact cover / depot routes -> representation theorems of C05-C07), totality of the path-based one, QUBO-value corollaries + correspondence of the heuristics (outcome, graph, vehicles/pool, solution) + oracle on every normal return",
@@ -111,9 +111,9 @@ claim("C10", "DESIGN.md §5 C10",
       "renderLines is compared byte-for-byte with the real file (minus timestamp), loadText with the real loader on the written file and 10 edited variants; gen() on small horizons: file names vs variable counts, saved constraint data reloaded through convenience().",
       "The number parsers of the loader model accept exactly the spellings export writes; file I/O, np.savez/pickle exercised, not proved.")
 claim("C14", "DESIGN.md §5 C14, §11",
-      "Lean 4 refinement proofs at two levels: a flag-level model of the arc- and sequence-based objects (VrpModel/CacheFlags.lean: one function per Python method with its flag reads/writes in order, the heuristics' reset sites at the code's program points, partial state kept when the heuristic raises; operations size / tuple->index / index->tuple / objective / constraints / QUBO / heuristic) refines the cache-free specification on every call history; plus the earlier generic memo machine; call-by-call correspondence of replies and flags + twin-run oracle on real objects",
-      "Proved for every call history (queries in any number and order, any number of heuristic runs, also after a raising heuristic): every reply of the object with flags and caches equals the reply computed from the instance state alone (arc_refines, seq_refines; coherence invariant: flag set => cache equals the fresh value); asking twice gives equal results and changes neither instance nor solution (…_query_idempotent); deleting all queries changes no heuristic reply, no later reply, not the final instance nor the stored solution (…_queries_irrelevant); a successful flag-level heuristic returns exactly what the instance-level heuristic of C09 returns (…_makeFeasible_connection). "
-      "Expressiveness is demonstrated inside Lean: variants with a forgotten objective flag at both sites / at the loop head only, with no reset at the loop head, and a sequence _ensure_exit_arc without resets provably FAIL refinement on concrete histories (v1b/v1c/v2_not_refines, seq_exit_noreset_not_refines), while forgetting the flag at the exit-arc site only is provably harmless (v1_equivalent). "
+      "Lean 4 refinement proofs at two levels: a flag-level model of the arc- and sequence-based objects (VrpModel/CacheFlags.lean: one function per Python method with its flag reads/writes in order, the heuristics' reset sites at the code's program points, partial state kept when the heuristic raises; operations size / tuple->index / index->tuple / objective / constraints / QUBO / heuristic / every public mutator: add_time_points, set_max_vehicles, set_max_sequence_length, add_arc, add_node, set_depot, set_vehicle_cap, set_initial_loading) refines the cache-free specification on every call history; plus the earlier generic memo machine; call-by-call correspondence of replies and flags + twin-run oracle on real objects",
+      "Proved for every call history (queries, heuristic runs and mutators in any number and order, also after a raising heuristic or mutator): every reply of the object with flags and caches equals the reply computed from the instance state alone (arc_refines, seq_refines; coherence invariant: flag set => cache equals the fresh value); asking twice gives equal results and changes neither instance nor solution (…_query_idempotent); deleting all queries (keeping heuristics and mutators) changes no reply of a kept operation, no later reply, not the final instance nor the stored solution (…_queries_irrelevant); a successful flag-level heuristic returns exactly what the instance-level heuristic of C09 returns (…_makeFeasible_connection). "
+      "Expressiveness is demonstrated inside Lean: a mutator that forgets the invalidation hook (arc add_time_points, sequence set_max_vehicles) and a sequence heuristic without the loop-head reset provably FAIL refinement on concrete histories (arc_addTimePoints_nohook_not_refines, seq_setMaxVehicles_nohook_not_refines, seq_head_noreset_not_refines); since the repair of D19 every add_arc inside the heuristics invalidates by itself, so the explicit resets of the arc heuristic are provably redundant (v1b/v1c/v2_refines, arc_no_explicit_reset_refines). "
       "The model is tied to the code call by call: reply, all flags after every call, final graph, vehicles and stored solution, on random, systematic (formulation x query kind) and raising histories; the property itself is re-checked on real objects by the twin-run oracle (history with vs without earlier queries, every query twice, fresh-object query orders).",
       "Route decoding is not an operation of the flag machine (reads no cache); path-based object (no caches) by the oracle only; out-of-range lookup arguments outside the model.")
 
